@@ -113,6 +113,10 @@ structure Grp where
   n : Nat := 0
   md : Nat := 0
   sd : Nat := 0
+  printed : Nat := 0
+
+/-- at most this many DIFF lines per (fn, ty); the GROUP counters are exact, checks/c05.py alarms when the cap was hit -/
+def diffCap : Nat := 1000000
 
 def runLines (path : String) : IO UInt32 := do
   let h ← IO.FS.Handle.mk path IO.FS.Mode.read
@@ -121,7 +125,6 @@ def runLines (path : String) : IO UInt32 := do
   let mut md := 0
   let mut sd := 0
   let mut nontriv := 0
-  let mut printed := 0
   let mut seen : Std.HashSet UInt64 := {}
   let mut groups : Std.HashMap String Grp := {}
   repeat
@@ -142,7 +145,9 @@ def runLines (path : String) : IO UInt32 := do
           let ds := !(p0 == g0 && p1 == g1)
           let key := fn ++ " " ++ ty
           let g := groups.getD key {}
-          groups := groups.insert key { n := g.n + 1, md := g.md + (if dm then 1 else 0), sd := g.sd + (if ds then 1 else 0) }
+          let pr := (dm || ds) && g.printed < diffCap
+          groups := groups.insert key { n := g.n + 1, md := g.md + (if dm then 1 else 0), sd := g.sd + (if ds then 1 else 0),
+                                        printed := g.printed + (if pr then 1 else 0) }
           if dm then md := md + 1
           if ds then sd := sd + 1
           -- distinct non-trivial inputs: the result is neither the (first) input unchanged nor zero
@@ -150,15 +155,13 @@ def runLines (path : String) : IO UInt32 := do
           if !seen.contains hk then
             seen := seen.insert hk
             if !(g0 == a0) && !(g0 == 0) then nontriv := nontriv + 1
-          if dm || ds then
-            if printed < 400000 then
-              printed := printed + 1
+          if pr then
               IO.println s!"DIFF {if dm then "m" else ""}{if ds then "s" else ""} {ln} model={m0},{m1} spec={p0},{p1}"
         | _, _ => bad := bad + 1; IO.println s!"BAD unknown-op {ln}"
       | _, _, _, _, _, _ => bad := bad + 1; IO.println s!"BAD number {ln}"
     | _ => bad := bad + 1; IO.println s!"BAD shape {ln}"
   for (k, g) in groups.toList do
-    IO.println s!"GROUP {k} n={g.n} modeldiff={g.md} specdiff={g.sd}"
+    IO.println s!"GROUP {k} n={g.n} modeldiff={g.md} specdiff={g.sd} printed={g.printed}"
   IO.println s!"SUMMARY lines={lines} bad={bad} modeldiff={md} specdiff={sd} nontrivial={nontriv} distinct={seen.size}"
   return 0
 
